@@ -31,7 +31,7 @@ RULE = ("discounted POMDP specs (n=2: 1-2 actions, all Dirac/half-half transitio
 ASSUMPTIONS = [
     "optimal value semantics: absorbing states are zero-value sinks and the agent does not condition on non-termination (what the alpha-vector backup and QMDP both compute)",
     "tolerance 1e-9 on the tight finite-horizon bounds; exact MDP quantities via PolicyIteration compared at 1e-7",
-    "constant-reward POMDPs with horizon=None are skipped (the horizon formula divides by rmax-rmin and raises before any value exists); counted",
+    "horizon=None: the planner's own horizon is gamma^h * span <= epsilon with span = rmax - rmin (|r| for constant rewards), at least one backup; the check mirrors this only to know how many backups were possible",
 ]
 BUDGET = {'quick': 900, 'thorough': 7200}
 CHUNK = {'quick': 8, 'thorough': 8}
@@ -41,7 +41,7 @@ SLAB = ['int', 'rev', 'str', 'mix', 'tup', 'fd']
 ALAB = ['ab', 'rev', 'ab', 'mix', 'rev', 'fd']
 OLAB = ['xy', 'int', 'mix']
 HORIZONS = [1, 2, 3, 4, None]
-EPS = [1e-1, 1e-3]
+EPS = [1e-1, 1e-3, 10.0]     # 10.0: a threshold above the reward span (the computed horizon would be <= 0)
 
 
 def bounds(tier):
@@ -70,7 +70,7 @@ def items(tier, seed):
     for gen in gens:
         for it in gen:
             i += 1
-            cfgs = sorted({((i + j + seed) % 5, (i // 5 + j) % 2, (i // 3 + j + seed) % 4) for j in range(k if it[1][1] == 2 else 2)})
+            cfgs = sorted({((i + j + seed) % 5, (i // 5 + j) % 2 if (i + j) % 7 else 2, (i // 3 + j + seed) % 4) for j in range(k if it[1][1] == 2 else 2)})
             yield (it, (i + seed) % 6, (i // 2 + seed) % 3, tuple(cfgs))
 
 
@@ -198,14 +198,20 @@ def check(item, tier):
                 if qv < float(low) - 1e-7 * max(1, abs(float(low))):
                     bad('qmdp_value_below_optimal_lower_bound', {'belief': b, 'qmdp': qv, 'lower_bound_on_optimum': low})
                 check_action_dist(q.policy, rb, alist, r, item, 'qmdp', b)
+                try:
+                    perm = Belief(tuple(reversed(rb[0])), tuple(reversed(rb[1])))
+                    r.count('transitions')
+                    if abs(float(q.policy.value(perm)) - float(qv)) > 1e-12 * max(1.0, abs(float(qv))):
+                        bad('qmdp_value_depends_on_how_the_belief_is_written', {'belief': b, 'value': float(q.policy.value(perm)), 'expected': float(qv)})
+                except Exception as e:
+                    bad('qmdp_exception', {'error': repr(e)[:300], 'where': 'belief in reversed state order'})
         # ---------------- PBVI
         for (hi, ei, mi) in cfgs:
             horizon, eps, minexp = HORIZONS[hi], EPS[ei], mi
             ctx = {'horizon': horizon, 'epsilon': eps, 'min_belief_expansions': minexp}
             sar = pomdp.state_action_reward_matrix
             if horizon is None and float(sar.max()) == float(sar.min()):
-                r.count('outside:constant_reward_with_horizon_none')
-                continue
+                r.count('constant_reward_with_horizon_none')
             calls = []
             orig = pb.point_based_value_iteration
 
@@ -231,8 +237,12 @@ def check(item, tier):
                 pb.point_based_value_iteration = orig
             iters, used, alphas = calls[-1]
             if horizon is None:
-                h = float(eps) / (float(sar.max()) - float(sar.min()))
-                hmax = int(math.ceil(math.log(h) / math.log(float(g))))
+                # the number of backups the planner allows itself: gamma^h * (reward span) <= epsilon, at least one backup; with
+                # constant rewards the span is taken to be their magnitude (all-zero rewards: one backup)
+                span = float(sar.max()) - float(sar.min())
+                if span == 0:
+                    span = abs(float(sar.max()))
+                hmax = 1 if span == 0 else max(1, int(math.ceil(math.log(float(eps) / span) / math.log(float(g)))))
             else:
                 hmax = horizon
             js = sorted({min(iters, hmax), min(iters + 1, hmax)})
@@ -287,6 +297,23 @@ def check(item, tier):
                     if pv > q.policy.value(rb) + slack + 1e-7 * max(1, abs(pv)):
                         bad('pbvi_exceeds_qmdp_by_more_than_slack', dict(ctx, belief=b, pbvi=pv, qmdp=q.policy.value(rb), slack=slack))
                 check_action_dist(res.policy, rb, alist, r, item, 'pbvi', b, ctx)
+                # the same belief written differently: a Belief whose states are listed in another order, and the plain
+                # probability vector (list / numpy array in state_list order) that the policy also accepts
+                try:
+                    perm = Belief(tuple(reversed(rb[0])), tuple(reversed(rb[1])))
+                    forms = {'belief_in_reversed_state_order': perm, 'list': list(rb[1]), 'numpy_vector': np.array(rb[1], dtype=float)}
+                    for fname, fb in forms.items():
+                        r.count('transitions')
+                        alt = float(res.policy.value(fb))
+                        if abs(alt - pv) > 1e-12 * max(1.0, abs(pv)):
+                            bad('pbvi_value_depends_on_how_the_belief_is_written', dict(ctx, belief=b, form=fname, value=alt, expected=pv))
+                        for a in ps.anames:
+                            av0, av1 = float(res.policy.action_value(rb, al(a))), float(res.policy.action_value(fb, al(a)))
+                            if abs(av0 - av1) > 1e-12 * max(1.0, abs(av0)):
+                                bad('pbvi_action_value_depends_on_how_the_belief_is_written',
+                                    dict(ctx, belief=b, form=fname, a=a, value=av1, expected=av0))
+                except Exception as e:
+                    bad('pbvi_exception', dict(ctx, error=repr(e)[:300], where='belief written as another form', belief=b))
                 # one-step look-ahead (mechanism "alpha-vector value and one-step look-ahead action value"): recomputed with the
                 # exact rational filter of the reference and the policy's own value() at the posterior beliefs
                 for a in ps.anames:
@@ -318,7 +345,7 @@ def check(item, tier):
                     if vert not in usedv0:
                         bad('pbvi_belief_set_misses_reachable_vertex', dict(ctx, vertex=s_, used=[list(map(float, u)) for u in used]))
             # fully observable kernels: exact at vertices of the used belief set that are closed
-            if revealing and max(js) <= 5 and len(js) == 1:
+            if revealing and max(js) <= 5:
                 usedv = {tuple(np.round(u, 12)) for u in used}
                 verts = {s for s in range(n) if tuple(1.0 if pomdp.s_of[ls] == s else 0.0 for ls in slist) in usedv}
                 adj = ps.adjacency()
@@ -326,12 +353,13 @@ def check(item, tier):
                 for s in verts:
                     if not reach[s] <= verts:
                         continue
-                    want = em.value({s: F(1)}, js[0], zero_leaf)
+                    # the alpha vectors are those of j backups, j one of the (at most two) counts the stop rule leaves open
+                    wants = [em.value({s: F(1)}, j, zero_leaf) for j in js]
                     pv = float(res.policy.value(bel({s: F(1)})))
                     r.count('transitions')
                     r.count('fully_observable_vertex_checks')
-                    if abs(pv - float(want)) > 1e-9 * max(1, abs(float(want))):
-                        bad('pbvi_fully_observable_vertex_value', dict(ctx, s=s, pbvi=pv, want=want, backups=js))
+                    if not any(abs(pv - float(want)) <= 1e-9 * max(1, abs(float(want))) for want in wants):
+                        bad('pbvi_fully_observable_vertex_value', dict(ctx, s=s, pbvi=pv, want=wants, backups=js))
                     if q is not None and abs(q.policy.value(bel({s: F(1)})) - float(Vmdp[s] if s not in A else 0)) > 1e-7 * max(1, abs(float(Vmdp[s]))):
                         bad('qmdp_fully_observable_vertex_value', dict(ctx, s=s, qmdp=q.policy.value(bel({s: F(1)})), want=Vmdp[s]))
     if hash(repr(item)) % 700 == 0:
